@@ -1114,9 +1114,13 @@ func runQueryB(c *lib.Ctx, repo string, tree *node, ents []ent, q query, toModel
 					cls = "build-file-returned-by-glob-builtin"
 				}
 			}
-			what := fmt.Sprintf("glob(%q, exclude=%q, hidden=%v) in package %q returned %q, which the documented semantics do not select", renderAll(q.Inc), renderAll(q.Exc), q.Hidden, q.Pkg, path)
+			via := ""
+			if builtinFile != "" {
+				via = fmt.Sprintf("BUILD file %q (build file names %q are never sources): ", builtinFile, buildFileNames)
+			}
+			what := fmt.Sprintf("%sglob(%q, exclude=%q, hidden=%v) in package %q returned %q, which the documented semantics do not select", via, renderAll(called.Inc), renderAll(called.Exc), q.Hidden, q.Pkg, path)
 			if want {
-				what = fmt.Sprintf("glob(%q, exclude=%q, hidden=%v) in package %q did not return %q, which the documented semantics select", renderAll(q.Inc), renderAll(q.Exc), q.Hidden, q.Pkg, path)
+				what = fmt.Sprintf("%sglob(%q, exclude=%q, hidden=%v) in package %q did not return %q, which the documented semantics select", via, renderAll(called.Inc), renderAll(called.Exc), q.Hidden, q.Pkg, path)
 			}
 			c.Fail(cls, what, js)
 		}
@@ -1327,7 +1331,7 @@ func runSequence(c *lib.Ctx, tree *node, calls []call, e2e bool, toModel bool) {
 		if e2e {
 			pkg := calls[0].Pkg
 			var e2eBfn []string
-			var src strings.Builder
+			var src, srcSafe strings.Builder
 			ok := true
 			want := make([]result, len(calls))
 			pg := fs.NewGlobber(fs.HostFS, e2eBfn)
@@ -1342,11 +1346,37 @@ func runSequence(c *lib.Ctx, tree *node, calls []call, e2e bool, toModel bool) {
 				allowEmpty := !(len(want[i].Out) > 0 && len(persisted.Out) > 0 && i%2 == 1)
 				fmt.Fprintf(&src, "g%d = glob(include = %s, exclude = %s, hidden = %s, include_symlinks = %s, allow_empty = %s)\n",
 					i, inc, exc, pyBool(cl.Hidden), pyBool(cl.Syms), pyBool(allowEmpty))
+				fmt.Fprintf(&srcSafe, "g%d = glob(include = %s, exclude = %s, hidden = %s, include_symlinks = %s, allow_empty = True)\n",
+					i, inc, exc, pyBool(cl.Hidden), pyBool(cl.Syms))
+			}
+			srcText := src.String()
+			if ok {
+				// dry run with allow_empty=True everywhere: an unexpectedly empty result must become a reported failing input,
+				// not a fatal exit of the harness; only when every result is the expected one is the file with
+				// allow_empty=False run
+				res, err := asp.VerifC16Eval([]asp.VerifC16File{{Name: pkg, Src: srcSafe.String()}}, false)
+				if err == nil && len(res) == 1 && res[0].Err == "" {
+					var raw map[string]json.RawMessage
+					if json.Unmarshal(res[0].After, &raw) == nil {
+						for i := range calls {
+							var l []any
+							got := []string{}
+							if json.Unmarshal(raw[fmt.Sprintf("g%d", i)], &l) == nil && len(l) >= 2 {
+								for _, x := range l[2:] {
+									got = append(got, fmt.Sprint(x))
+								}
+							}
+							if fmt.Sprintf("%q", got) != fmt.Sprintf("%q", want[i].Out) {
+								srcText = srcSafe.String()
+							}
+						}
+					}
+				}
 			}
 			if ok {
-				js["build_file"] = src.String()
+				js["build_file"] = srcText
 				c.Oracle()
-				res, err := asp.VerifC16Eval([]asp.VerifC16File{{Name: pkg, Src: src.String()}}, false)
+				res, err := asp.VerifC16Eval([]asp.VerifC16File{{Name: pkg, Src: srcText}}, false)
 				c.Hist("seq_as_build_file_through_asp", "run")
 				if err != nil || len(res) != 1 || res[0].Err != "" {
 					msg := fmt.Sprint(err)
